@@ -61,6 +61,15 @@ def failFn (args : List String) : Nat → Bool :=
   let l := ((findArg "fail" args).getD []).filterMap (·.toNat?)
   fun k => l.contains k
 
+/-- `failpeer=<ids>`: the store fails the credit to these peers.  The model indexes faults by position in the list of
+active peers it credits (the order is the store's own): translate. -/
+def failFnFor (p : Pool) (id : String) (reported : List String) (block : Nat) (now : Int) (args : List String) : Nat → Bool :=
+  let names := (findArg "failpeer" args).getD []
+  let active : List String := match p.store.updateNodePeers id reported block now with
+    | .ok (s2, _) => (match s2.nodePeers id with | .ok a => a.map (·.id) | .error _ => [])
+    | .error _ => []
+  fun k => (failFn args k) || (match active[k]? with | some nm => names.contains nm | none => false)
+
 def poolStep (p : Pool) (args : List String) : Pool × String :=
   match args with
   | "cfg" :: rest =>
@@ -93,14 +102,14 @@ def poolStep (p : Pool) (args : List String) : Pool × String :=
     match int? nonce, (findStr "block" rest).bind nat?, findArg "peers" rest, findInt "mnow" rest, findInt "now" rest with
     | some nonce, some block, some peers, some mnow, some now =>
       if findStr "readfault" rest == some "1" then
-        let (p', failed, r, calls) := p.UpdateReadFault (sigOk sig) (tok id) nonce peers block now mnow (failFn rest)
+        let (p', failed, r, calls) := p.UpdateReadFault (sigOk sig) (tok id) nonce peers block now mnow (failFnFor p (tok id) peers block now rest)
         if failed then (p', "err DepositLookup") else
         match r with
         | .ok u => (p', s!"ok invalid={joinC (sortStrings u.invalid)} active={joinC (sortStrings u.active)} bal={showBal u.balance}")
         | .error (.lowBalance c m) => (p', s!"err LowBalance {c} {m} disconnect={joinC (sortStrings (calls.map (·.2)))}")
         | .error e => (p', showPoolErr e)
       else
-      let (p', r, calls) := p.Update (sigOk sig) (tok id) nonce peers block now mnow (failFn rest)
+      let (p', r, calls) := p.Update (sigOk sig) (tok id) nonce peers block now mnow (failFnFor p (tok id) peers block now rest)
       match r with
       | .ok u => (p', s!"ok invalid={joinC (sortStrings u.invalid)} active={joinC (sortStrings u.active)} bal={showBal u.balance}")
       | .error (.lowBalance c m) => (p', s!"err LowBalance {c} {m} disconnect={joinC (sortStrings (calls.map (·.2)))}")
@@ -178,6 +187,12 @@ def poolStep (p : Pool) (args : List String) : Pool × String :=
           | [n, a] => (a.toInt?).map (fun a => (tok n, a))
           | _ => none)
         | none => none
+      if (findStr "lookupfault" rest).isSome then
+        -- the deposit lookup fails: the request is authenticated (its nonce is consumed), then refused; nothing is paid
+        match p.payVerify (sigOk sig) (tok w) nonce now with
+        | .error e => (p, showPoolErr e)
+        | .ok p1 => if !p1.cfg.settleEnabled then (p1, showPoolErr .withdrawDisabled) else (p1, "err DepositLookup")
+      else
       let (p', r) := p.WithdrawDuring (sigOk sig) (tok w) nonce now (st == "ok") during
       match r with
       | .ok pay => (p', s!"ok paid={pay}")
